@@ -633,6 +633,9 @@ def run_c09(ctx) -> Corr:
     add_enumerated(configs(range(0, 3), range(0, 4), one_task), "enum-1task")
     # ... and the splits over two and three tasks
     add_enumerated(configs(range(0, 3), range(0, 4), split_small), "enum-tasks")
+    # values that are falsy or equal in Python ('' and '0'; `is` is not `==`, and a message is not its payload):
+    # every interleaving again with all payloads empty, for <= 2 calls and 1-2 parked commands
+    add_enumerated(configs(range(1, 3), range(1, 3), one_task), "enum-empty-payloads", payload="")
     n_quick = len(cases)
     random_cases: list[Case] = []
     if ctx.tier == "thorough":
@@ -651,7 +654,7 @@ def run_c09(ctx) -> Corr:
         nk = rng.choice([1, 2, 2, 3, 4, 7])
         ks = names[:nk]
         parked = [(rng.choice(ks), rng.choice(["0", "1", "on", "a;b", ""])) for _ in range(rng.randint(0, 4))]
-        senders = [[(rng.choice(ks), rng.choice(["0", "1", "2", "x y", "é"])) for _ in range(rng.randint(0, 4))]
+        senders = [[(rng.choice(ks), rng.choice(["0", "1", "2", "x y", "é", "", ""])) for _ in range(rng.randint(0, 4))]
                    for _ in range(rng.randint(1, 3))]
         random_cases.append(Case(WAKE_VERSIONS[j % 3], parked, senders, None, "random"))
 
